@@ -136,6 +136,7 @@ func init() {
 		Rule: "metamorphic relation 'repetition': the same sources are analysed, compiled and run R times (quick 6-12, thorough 24-60) inside one worker process and twice more in a second process with a different GOMAXPROCS (1/2/16): the multiset of diagnostics (level, message, span), the output and the outcome of both backends must be identical in every repetition; inputs: generated programs (objects with several fields printed/compared, lambdas, many locals) and hand-built order-sensitive programs (4 modules with overlapping names, objects rendered/serialised/iterated, diagnostics in several modules); a dependence on the order of a map with m keys at a single site is missed by R repetitions with probability about (1/m!)^(R-1); non-trivial = object literal, >= 2 lambdas or >= 2 functions / every fixed program; distinct by program text",
 		Jobs: []Job{
 			{Name: "fixed", Run: "^TestTableFixed$", Shards: [2]int{4, 4}},
+			{Name: "cancelpoint", Run: "^TestTableCancelPoint$", Shards: [2]int{4, 4}},
 			{Name: "generated", Run: "^TestRepeatGenerated$", Checks: [2]int{200, 1500}, Shards: [2]int{8, 16}},
 		}})
 }
